@@ -89,7 +89,7 @@ def check(ctx):
                 os.unlink(of)
             outfiles.append(of)
             jobs.append((exe, box + ['--tiles', '1,2,3', '--shard', '%d/%d' % (k, nsh), '--outcomes', of, '--outdir', '/verif/out', '--deadline', str(dl)],
-                         'S-%s%d' % (tag, k), dl + 200))
+                         'S-%s%d' % (tag, k), dl + 600))
     if quick:
         # quick box: 2DBC -> 2DBC with matrix sizes <= 5; the eight pairs involving SBC descriptors with sizes <= 4
         shards('a', 3, ['--maxm', '5', '--ydist', 'bc', '--tdist', 'bc'], 60)
@@ -103,16 +103,16 @@ def check(ctx):
     mjobs = []
     if quick:
         mjobs.append((Wrapped(ctx, exe, 2).path, ['--minm', '4', '--maxm', '4', '--tiles', '2,3', '--grids', '1,2,2,1', '--reduced',
-                                                   '--outdir', '/verif/out', '--deadline', '50'], 'M-np2', 250))
+                                                   '--outdir', '/verif/out', '--deadline', '50'], 'M-np2', 600))
         run_parallel(ctx, jobs + mjobs)
     else:
         run_parallel(ctx, jobs)
         mdl = 420
         common = ['--outdir', '/verif/out', '--deadline', str(mdl)]
-        mjobs.append((Wrapped(ctx, exe, 2).path, ['--minm', '6', '--maxm', '6', '--tiles', '2,3', '--grids', '1,2,2,1'] + common, 'M-np2', mdl + 300))
-        mjobs.append((Wrapped(ctx, exe, 2).path, ['--minm', '6', '--maxm', '6', '--tiles', '2,3', '--grids', '1,2,2,1', '--reduced', '--ydist', ALLD, '--tdist', ALLD] + common, 'M-np2s', mdl + 300))
-        mjobs.append((Wrapped(ctx, exe, 3).path, ['--minm', '6', '--maxm', '6', '--tiles', '2,3', '--grids', '1,3,3,1', '--reduced', '--ydist', 'bc', '--tdist', ALLD] + common, 'M-np3', mdl + 300))
-        mjobs.append((Wrapped(ctx, exe, 4).path, ['--minm', '6', '--maxm', '6', '--tiles', '2,3', '--grids', '2,2,1,4,4,1', '--reduced'] + common, 'M-np4', mdl + 300))
+        mjobs.append((Wrapped(ctx, exe, 2).path, ['--minm', '6', '--maxm', '6', '--tiles', '2,3', '--grids', '1,2,2,1'] + common, 'M-np2', mdl + 900))
+        mjobs.append((Wrapped(ctx, exe, 2).path, ['--minm', '6', '--maxm', '6', '--tiles', '2,3', '--grids', '1,2,2,1', '--reduced', '--ydist', ALLD, '--tdist', ALLD] + common, 'M-np2s', mdl + 900))
+        mjobs.append((Wrapped(ctx, exe, 3).path, ['--minm', '6', '--maxm', '6', '--tiles', '2,3', '--grids', '1,3,3,1', '--reduced', '--ydist', 'bc', '--tdist', ALLD] + common, 'M-np3', mdl + 900))
+        mjobs.append((Wrapped(ctx, exe, 4).path, ['--minm', '6', '--maxm', '6', '--tiles', '2,3', '--grids', '2,2,1,4,4,1', '--reduced'] + common, 'M-np4', mdl + 900))
         run_parallel(ctx, mjobs)
     merge_shards(ctx, 'S-', outfiles)
     return ctx.finish(RULE, ["element type double, tile storage; windows lie inside the matrices (and inside the stored triangle of SBC descriptors, as the wrapper requires)",
